@@ -16,14 +16,17 @@ theorem event_shape (p : Program) (e : Event) (h : Obs.event e ∈ p.run.2.tr) :
   pres_execAll p p.main ⟨[], []⟩ (by intro e he; simp at he) e h
 
 /-- **Default destruction events.**  Destroying a resource `r` appends to the trace first everything the
-destruction of its nested resource emits, then `r`'s own `ResourceDestroyed` payload, whose fields are the
-declared parameters in order and whose values are the default-argument expressions evaluated on `r` as it
-was before destruction, transferred to the parameter types. -/
+destruction of its nested resource emits, then the `ResourceDestroyed` payloads inherited from the
+interfaces `r` conforms to (`ifaceEventsOf`: one per effective conformance, in conformance order), then
+`r`'s own `ResourceDestroyed` payload, whose fields are the declared parameters in order and whose values
+are the default-argument expressions evaluated on `r` as it was before destruction, transferred to the
+parameter types. -/
 theorem destroy_defaults (p : Program) (r : Res) (s s' : St) (h : destroyRes p r s = (.ok (), s')) :
     ∃ sInner, (match r.inner with
         | some i => destroyRes p i s = (.ok (), sInner)
         | none => sInner = s) ∧
-      ∃ ev, s'.tr = sInner.tr ++ optEvents ev ∧
+      ∃ ievs ev, ifaceEventsOf p r = .ok ievs ∧
+        s'.tr = sInner.tr ++ ievs.map Obs.event ++ optEvents ev ∧
         ((∀ d, p.resources[r.ty]? = some d → d.destroyEvent = none → ev = none) ∧
          ∀ d ps, p.resources[r.ty]? = some d → d.destroyEvent = some ps →
           ∃ vals, ev = some ⟨resEventId r.ty, (ps.map (·.name)).zip vals⟩ ∧
@@ -34,31 +37,54 @@ theorem destroy_defaults (p : Program) (r : Res) (s s' : St) (h : destroyRes p r
     unfold destroyEventOf at hev
     simp [hd, hn] at hev
     exact hev.symm
+  have tail : ∀ (ievs : List Event) (ev : Option Event) (t : St),
+      (emitList ievs >>= fun _ => emitOpt ev) t = (.ok (), s') →
+      s'.tr = t.tr ++ ievs.map Obs.event ++ optEvents ev := by
+    intro ievs ev t ht
+    rw [bind_def, emitList_tr] at ht
+    simp only [] at ht
+    have := emitOpt_tr ev _ s' ht
+    simpa using this
   cases r with
   | leaf ty fields =>
     unfold destroyRes at h
     split at h
     · simp at h
-    · next ev hev =>
-      exact ⟨s, rfl, ev, emitOpt_tr ev s s' h, noneCase ev hev, destroyEventOf_spec p _ ev hev⟩
+    · next ievs hiev =>
+      split at h
+      · simp at h
+      · next ev hev =>
+        exact ⟨s, rfl, ievs, ev, hiev, tail ievs ev s h, noneCase ev hev, destroyEventOf_spec p _ ev hev⟩
   | node ty fields inner =>
     unfold destroyRes at h
     split at h
     · simp at h
-    · next ev hev =>
-      rw [bind_def] at h
+    · next ievs hiev =>
       split at h
-      · next u s1 hin =>
-        exact ⟨s1, hin, ev, emitOpt_tr ev s1 s' h, noneCase ev hev, destroyEventOf_spec p _ ev hev⟩
       · simp at h
+      · next ev hev =>
+        rw [bind_def] at h
+        split at h
+        · next u s1 hin =>
+          exact ⟨s1, hin, ievs, ev, hiev, tail ievs ev s1 h, noneCase ev hev, destroyEventOf_spec p _ ev hev⟩
+        · simp at h
+
+/-- the inherited payloads: for a resource declared `Rk: cs`, `ifaceEventsOf` walks the effective
+conformances of `cs` (the port of `distinctConformances`, see C10 `conformance_closure`) in order. -/
+theorem inherited_events_order (p : Program) (r : Res) (d : ResDecl) (hd : p.resources[r.ty]? = some d) :
+    ifaceEventsOf p r =
+      evalIfaceEvents p r (Verif.Model.Lang3.effectiveConformances p.graph (p.ifaces.length + 1) d.conforms) := by
+  simp [ifaceEventsOf, hd]
 
 /-- non-vacuity: a resource `R1` holding an `R0`; the defaults read `self.f0` (updated after creation)
-and `self.inner.f0`; the inner resource's event comes first. -/
+and `self.inner.f0`; the inner resource `R0: I1` (`I1: I0`) emits its inherited events, then its own; the
+inner resource's events come first. -/
 def exProg : Program :=
   { events := [⟨"E0", [⟨"b", .opt (.int "Int")⟩, ⟨"a", .string⟩]⟩],
     resources := [
-      ⟨[⟨"f0", .int "Int"⟩], none, some [⟨"x", .int "Int", .field 0⟩]⟩,
-      ⟨[⟨"f0", .string⟩], some 0, some [⟨"s", .opt .string, .field 0⟩, ⟨"i", .int "Int", .innerField 0⟩, ⟨"k", .bool, .lit (.bool true)⟩]⟩],
+      ⟨[⟨"f0", .int "Int"⟩], none, some [⟨"x", .int "Int", .field 0⟩], [1]⟩,
+      ⟨[⟨"f0", .string⟩], some 0, some [⟨"s", .opt .string, .field 0⟩, ⟨"i", .int "Int", .innerField 0⟩, ⟨"k", .bool, .lit (.bool true)⟩], []⟩],
+    ifaces := [⟨[], some [⟨"z", .opt (.int "Int"), .field 0⟩]⟩, ⟨[0], some []⟩],
     funs := [],
     main := [
       .emit ⟨0, [.tr 1 (.lit (.int "Int" 5)), .tr 2 (.lit (.str "a"))]⟩,
@@ -68,6 +94,7 @@ def exProg : Program :=
 
 example : (exProg.run.2.tr.filterMap fun | .event e => some e | _ => none) =
     [⟨"E0", [("b", .some (.int "Int" 5)), ("a", .str "a")]⟩,
+     ⟨"I1.ResourceDestroyed", []⟩, ⟨"I0.ResourceDestroyed", [("z", .some (.int "Int" 7))]⟩,
      ⟨"R0.ResourceDestroyed", [("x", .int "Int" 7)]⟩,
      ⟨"R1.ResourceDestroyed", [("s", .some (.str "v")), ("i", .int "Int" 7), ("k", .bool true)]⟩] := by
   rfl
